@@ -280,32 +280,65 @@ structure Live (hd : Bool) (s : St) : Prop where
   notDone : s.handlerDone = false
   get : hd = false → Running s
   head : hd = true → HeadSh s
+  /-- the bufio.Writer's sticky error is only ever set by the call that sent the HEADERS of a HEAD response -/
+  errSent : hd = true → s.bwErr = true → s.sentHeader = true
 
 theorem live_wc (env : Env) (hd : Bool) (s : St) (p : List Nat) (h : Live hd s) : Live hd (writeChunk env s p) := by
   obtain ⟨k, _, _⟩ := writeChunk_props env s p
-  refine ⟨k.isHead.trans h.isHead, k.done.trans h.notDone, fun e => ?_, fun e => ?_⟩
+  refine ⟨k.isHead.trans h.isHead, k.done.trans h.notDone, fun e => ?_, fun e => ?_, fun e _ => ?_⟩
   · exact wc_running env s p (h.isHead.trans e) h.notDone (h.get e)
   · exact (wc_head env s p (h.isHead.trans e) (h.head e)).1
+  · exact (wc_head env s p (h.isHead.trans e) (h.head e)).2
+
+theorem writeHeader_bwErr (s : St) (c : Nat) : (writeHeader s c).bwErr = s.bwErr := by
+  unfold writeHeader; split <;> rfl
+
+theorem live_upd (hd : Bool) (s r : St) (h : Live hd s) (e1 : r.isHead = s.isHead) (e2 : r.handlerDone = s.handlerDone)
+    (e3 : r.sentHeader = s.sentHeader) (e4 : r.out = s.out) (e5 : r.bwErr = s.bwErr) : Live hd r := by
+  refine ⟨e1.trans h.isHead, e2.trans h.notDone, fun e => ?_, fun e => ?_, fun e hb => ?_⟩
+  · have := h.get e; unfold Running at this ⊢; rw [e3, e4]; exact this
+  · have := h.head e; unfold HeadSh at this ⊢; rw [e3, e4]; exact this
+  · rw [e3]; exact h.errSent e (e5 ▸ hb)
+
+/-- setting the sticky error on a state whose HEADERS are out -/
+theorem live_setErr (hd : Bool) (s r : St) (h : Live hd s) (hs : hd = true → s.sentHeader = true)
+    (e1 : r.isHead = s.isHead) (e2 : r.handlerDone = s.handlerDone) (e3 : r.sentHeader = s.sentHeader) (e4 : r.out = s.out) :
+    Live hd r := by
+  refine ⟨e1.trans h.isHead, e2.trans h.notDone, fun e => ?_, fun e => ?_, fun e _ => ?_⟩
+  · have := h.get e; unfold Running at this ⊢; rw [e3, e4]; exact this
+  · have := h.head e; unfold HeadSh at this ⊢; rw [e3, e4]; exact this
+  · rw [e3]; exact hs e
 
 theorem live_writeHeader (hd : Bool) (s : St) (c : Nat) (h : Live hd s) : Live hd (writeHeader s c) := by
   obtain ⟨e1, e2⟩ := writeHeader_sent s c
   have k := (keeps_writeHeader s c).1
-  refine ⟨k.isHead.trans h.isHead, k.done.trans h.notDone, fun e => ?_, fun e => ?_⟩
-  · have := h.get e; unfold Running at this ⊢; rw [e1, e2]; exact this
-  · have := h.head e; unfold HeadSh at this ⊢; rw [e1, e2]; exact this
+  exact live_upd hd s _ h k.isHead k.done e1 e2 (writeHeader_bwErr s c)
 
 theorem live_bwWrite (env : Env) (hd : Bool) (s : St) (p : List Nat) (h : Live hd s) : Live hd (bwWrite env s p) := by
   unfold bwWrite
   split
-  · exact ⟨h.isHead, h.notDone, h.get, h.head⟩
+  · exact live_upd hd s _ h rfl rfl rfl rfl rfl
   · split
     · exact live_wc env hd s p h
     · simp only []
-      have h0 : Live hd { s with buf := [] } := ⟨h.isHead, h.notDone, h.get, h.head⟩
+      have h0 : Live hd { s with buf := [] } := live_upd hd s _ h rfl rfl rfl rfl rfl
       have h1 := live_wc env hd _ (s.buf ++ p.take (bufSize - s.buf.length)) h0
       split
-      · exact ⟨h1.isHead, h1.notDone, h1.get, h1.head⟩
+      · exact live_upd hd _ _ h1 rfl rfl rfl rfl rfl
       · exact live_wc env hd _ _ h1
+
+/-- a Write that has to flush a non-empty buffer leaves the HEADERS of a HEAD response sent -/
+theorem bwWrite_sent (env : Env) (s : St) (p : List Nat) (h : Live true s)
+    (hne : s.buf.isEmpty = false) (hgt : p.length > bufSize - s.buf.length) : (bwWrite env s p).sentHeader = true := by
+  unfold bwWrite
+  rw [if_neg (by omega), if_neg (by simp [hne])]
+  simp only []
+  have h0 : Live true { s with buf := [] } := live_upd true s _ h rfl rfl rfl rfl rfl
+  have hs1 := (wc_head env _ (s.buf ++ p.take (bufSize - s.buf.length)) h0.isHead (h0.head rfl)).2
+  have h1 := live_wc env true _ (s.buf ++ p.take (bufSize - s.buf.length)) h0
+  split
+  · exact hs1
+  · exact (wc_head env _ _ h1.isHead (h1.head rfl)).2
 
 theorem live_rwWrite (env : Env) (hd : Bool) (s : St) (p : List Nat) (h : Live hd s) : Live hd (rwWrite env s p) := by
   unfold rwWrite
@@ -316,23 +349,47 @@ theorem live_rwWrite (env : Env) (hd : Bool) (s : St) (p : List Nat) (h : Live h
     · exact h
   simp only []
   split
-  · exact ⟨g1.isHead, g1.notDone, g1.get, g1.head⟩
+  · exact live_upd hd s1 _ g1 rfl rfl rfl rfl rfl
   · split
-    · exact ⟨g1.isHead, g1.notDone, g1.get, g1.head⟩
-    · have g2 : Live hd { s1 with wroteBytes := s1.wroteBytes + p.length } := ⟨g1.isHead, g1.notDone, g1.get, g1.head⟩
+    · exact live_upd hd s1 _ g1 rfl rfl rfl rfl rfl
+    · have g2 : Live hd { s1 with wroteBytes := s1.wroteBytes + p.length } := live_upd hd s1 _ g1 rfl rfl rfl rfl rfl
       have g3 := live_bwWrite env hd _ p g2
-      exact ⟨g3.isHead, g3.notDone, g3.get, g3.head⟩
+      split
+      · rename_i hh
+        have hdt : hd = true := by rw [← g2.isHead]; exact hh
+        subst hdt
+        unfold rwWriteHead
+        split
+        · exact live_upd true _ _ g2 rfl rfl rfl rfl rfl
+        · split
+          · rename_i hshort
+            unfold bwShort at hshort
+            simp only [Bool.and_eq_true, Bool.not_eq_true', decide_eq_true_eq] at hshort
+            have hsent := bwWrite_sent env _ p g2 hshort.1.2 hshort.2
+            exact live_setErr true _ _ g3 (fun _ => hsent) rfl rfl rfl rfl
+          · exact live_upd true _ _ g3 rfl rfl rfl rfl rfl
+      · exact live_upd hd _ _ g3 rfl rfl rfl rfl rfl
 
 theorem live_rwFlush (env : Env) (hd : Bool) (s : St) (h : Live hd s) : Live hd (rwFlush env s) := by
-  unfold rwFlush
+  have h0 : Live hd { s with buf := [] } := live_upd hd s _ h rfl rfl rfl rfl rfl
+  unfold rwFlush rwFlushHead rwFlushGet
   split
-  · exact live_wc env hd _ _ ⟨h.isHead, h.notDone, h.get, h.head⟩
-  · exact live_wc env hd _ _ h
+  · split
+    · split
+      · exact h
+      · split
+        · have h1 := live_wc env hd _ s.buf h0
+          exact live_setErr hd _ _ h1 (fun e => (wc_head env _ _ (h0.isHead.trans e) (h0.head e)).2) rfl rfl rfl rfl
+        · exact live_wc env hd _ _ h0
+    · exact live_wc env hd _ _ h
+  · split
+    · exact live_wc env hd _ _ h0
+    · exact live_wc env hd _ _ h
 
 theorem live_step (env : Env) (hd : Bool) (s : St) (a : Act) (h : Live hd s) : Live hd (step env s a) := by
   cases a with
-  | add k v => exact ⟨h.isHead, h.notDone, h.get, h.head⟩
-  | setFirst k v => exact ⟨h.isHead, h.notDone, h.get, h.head⟩
+  | add k v => exact live_upd hd s _ h rfl rfl rfl rfl rfl
+  | setFirst k v => exact live_upd hd s _ h rfl rfl rfl rfl rfl
   | status c => exact live_writeHeader hd s c h
   | write p => exact live_rwWrite env hd s p h
   | flush => exact live_rwFlush env hd s h
@@ -344,7 +401,7 @@ theorem live_foldl (env : Env) (hd : Bool) (acts : List Act) (s : St) (h : Live 
   | cons a r ih => exact ih _ (live_step env hd s a h)
 
 theorem live_init (hd : Bool) : Live hd { isHead := hd } :=
-  ⟨rfl, rfl, fun _ => Or.inl ⟨rfl, rfl⟩, fun _ => Or.inl ⟨rfl, rfl⟩⟩
+  ⟨rfl, rfl, fun _ => Or.inl ⟨rfl, rfl⟩, fun _ => Or.inl ⟨rfl, rfl⟩, fun _ hb => by cases hb⟩
 
 /-- every finished response has the final shape -/
 theorem final_run (env : Env) (isHead : Bool) (acts : List Act) : Final (runHandler env isHead acts).out := by
@@ -356,10 +413,13 @@ theorem final_run (env : Env) (isHead : Bool) (acts : List Act) : Final (runHand
   cases isHead with
   | false =>
     have hr := hl.get rfl
+    have hi : Inv { s with handlerDone := true } := ⟨hg.inv.snap, hg.inv.tr, hg.inv.out⟩
     unfold rwFlush
+    rw [if_neg (by simp only []; rw [hl.isHead]; simp)]
+    unfold rwFlushGet
     split
-    · exact wc_final env _ _ hl.isHead rfl ⟨hg.inv.snap, hg.inv.tr, hg.inv.out⟩ hr
-    · exact wc_final env _ _ hl.isHead rfl ⟨hg.inv.snap, hg.inv.tr, hg.inv.out⟩ hr
+    · exact wc_final env _ _ hl.isHead rfl ⟨hi.snap, hi.tr, hi.out⟩ hr
+    · exact wc_final env _ _ hl.isHead rfl hi hr
   | true =>
     have hr := hl.head rfl
     have key : ∀ (s' : St) (p : List Nat), s'.isHead = true → HeadSh s' → Final (writeChunk env s' p).out := by
@@ -368,9 +428,25 @@ theorem final_run (env : Env) (isHead : Bool) (acts : List Act) : Final (runHand
       rcases w1 with ⟨w, _⟩ | ⟨_, F, hF, ho⟩
       · rw [w2] at w; cases w
       · exact Or.inl ⟨F, hF, ho⟩
+    have key2 : ∀ (s' : St) (p : List Nat), s'.isHead = true → HeadSh s' →
+        Final ({ writeChunk env s' p with bwErr := true }).out := fun s' p h1 h2 => key s' p h1 h2
+    -- a sticky bufio error means the HEADERS were already sent: the response is complete as it is
+    have sent : ∀ (s' : St), s'.isHead = true → HeadSh s' → s'.sentHeader = true → Final s'.out := by
+      intro s' _ h2 h3
+      rcases h2 with ⟨w, _⟩ | ⟨_, F, hF, ho⟩
+      · rw [h3] at w; cases w
+      · exact Or.inl ⟨F, hF, ho⟩
     unfold rwFlush
+    rw [if_pos (by simp only []; exact hl.isHead)]
+    unfold rwFlushHead
     split
-    · exact key _ _ hl.isHead hr
+    · split
+      · rename_i hbe
+        -- bwErr is only ever set by a call that sent the HEADERS
+        exact sent _ hl.isHead hr (hl.errSent rfl hbe)
+      · split
+        · exact key2 _ _ hl.isHead hr
+        · exact key _ _ hl.isHead hr
     · exact key _ _ hl.isHead hr
 
 /-! ### HEADERS / CONTINUATION splitting -/
